@@ -5,6 +5,7 @@
    that canonical form is what the correspondence run checks (families of
    construction paths per denotation). *)
 From Arrai Require Import Base.Val Spec.SetAlg Eval.Interp Proofs.ValOrder Proofs.SetAlgP Proofs.KeyedP Proofs.CanonP Proofs.WfP.
+From Arrai Require Import Rep.Builder Proofs.BuilderP.
 
 (* a = b holds exactly when both denote the same value *)
 Theorem C02_equality_is_identity_of_denotations :
@@ -59,3 +60,95 @@ Theorem C02_results_with_same_members_are_equal :
     (forall x, In x a <-> In x b) -> VSet a = VSet b /\ veqb (VSet a) (VSet b) = true.
 Proof. exact results_extensional. Qed.
 Print Assumptions C02_results_with_same_members_are_equal.
+
+
+(* ---------- the set builder of rel/ (transcribed in Rep/Builder.v) ----------
+   Equality in Go is representation-wise, so extensional equality relies on the builder choosing one representation
+   per denotation.  `build` is rel.NewSet, `bucketise` SetBuilder.Add, `finish_bucket` the per-bucket finishers,
+   `rep_equal` the Equal methods, `abs` the denotation.  What is proved for all member lists is the skeleton of the
+   builder; the per-bucket finishers and Equal are compared with the implementation on every run (Check/BuilderCheck.v). *)
+
+(* SetBuilder.Add: the buckets are a partition of the member list - every bucket holds exactly the members of its kind,
+   in insertion order, is never empty, the keys are pairwise different and every member has its bucket - so nothing is
+   dropped, duplicated or moved by bucketing *)
+Theorem C02_builder_buckets_partition_members :
+  forall ms,
+    NoDup (map fst (bucketise ms)) /\
+    (forall b vs, In (b, vs) (bucketise ms) -> vs = filter (fun m => bucket_eq (bucket_of m) b) ms /\ vs <> []) /\
+    (forall m, In m ms -> In (bucket_of m) (map fst (bucketise ms))).
+Proof. exact bucketise_partition. Qed.
+Print Assumptions C02_builder_buckets_partition_members.
+
+(* SetBuilder.Finish: the built set denotes exactly the members it was given (none dropped, none added) whenever no two
+   bucket keys print the same text and every per-bucket finisher denotes exactly the members of its bucket.
+   PARTIAL: the second hypothesis is proved below for the generic bucket only; for the string / bytes / array / dict /
+   relation finishers it is what the correspondence run compares.  Both hypotheses are needed: see the _refuted theorems. *)
+Theorem C02_builder_denotes_members_partial :
+  forall ms r, build ms = BOk r ->
+    NoDup (map (fun x => bucket_str (fst x)) (bucketise ms)) ->
+    (forall b vs s, In (b, vs) (bucketise ms) -> finish_bucket b vs = BOk s ->
+       forall v, In v (set_elems (abs s)) <-> In v (map abs vs)) ->
+    abs r = mkset (map abs ms).
+Proof. exact build_denotes_members_modular. Qed.
+Print Assumptions C02_builder_denotes_members_partial.
+
+(* genericSetFinish + newSetFromFrozenSet: the generic bucket (numbers, sets, the empty tuple) denotes exactly its members -
+   {()} becoming TrueSet included - whenever Equal never identifies two of them that denote different values *)
+Theorem C02_generic_bucket_denotes_members :
+  forall vs, (forall x y, In x vs -> In y vs -> rep_equal x y = true -> abs x = abs y) ->
+    (forall x, In x vs -> rep_equal (RTupG []) x = true -> abs x = VTup []) ->
+    forall v, In v (set_elems (abs (finish_generic vs))) <-> In v (map abs vs).
+Proof. exact finish_generic_denotes_members. Qed.
+Print Assumptions C02_generic_bucket_denotes_members.
+
+(* outside the hypotheses the statements fail in the faithful model (each witness is replayed on the implementation by the
+   region cases of the check): two items superimposed at one index - the last one written wins, so a member is lost and
+   equal sets built in different orders get representations that are not Equal (KF-C02-01) *)
+Theorem C02_builder_denotes_members_refuted :
+  exists ms r, build ms = BOk r /\ abs r <> mkset (map abs ms).
+Proof. exact collision_refutes_members. Qed.
+Print Assumptions C02_builder_denotes_members_refuted.
+
+Theorem C02_representation_is_function_of_denotation_refuted :
+  exists ms ms' r r', mkset (map abs ms) = mkset (map abs ms') /\ build ms = BOk r /\ build ms' = BOk r' /\ rep_equal r r' = false.
+Proof. exact collision_refutes_order. Qed.
+Print Assumptions C02_representation_is_function_of_denotation_refuted.
+
+(* Equal is not extensional on everything the builders produce: a negative character is stored as a hole (Count() 1, no
+   member, not Equal to {}), and NewTuple truncates a fractional index (different denotations, Equal representations; KF-C02-02) *)
+Theorem C02_rep_equal_is_extensional_refuted :
+  (exists r, build [RTupChar 0 (-1)] = BOk r /\ abs r = abs REmpty /\ rep_equal r REmpty = false /\ rcount r = 1 /\ rmembers r = []) /\
+  (exists a b, tuple_build [(n_at, RNum (NHalf 0)); (n_item, rint 1)] = BOk a /\
+               tuple_build [(n_at, rint 0); (n_item, rint 1)] = BOk b /\ rep_equal a b = true /\
+               mktup [(n_at, VNum (NHalf 0)); (n_item, vint 1)] <> mktup [(n_at, vint 0); (n_item, vint 1)]).
+Proof. split; [exact negative_char_refutes_extensionality|exact truncation_refutes_extensionality]. Qed.
+Print Assumptions C02_rep_equal_is_extensional_refuted.
+
+(* bucket keys that print alike (KF-C02-04): a tuple whose only attribute is named like the generic bucket replaces that
+   bucket in the UnionSet, and two relation buckets whose names join to the same text share a builder, which panics *)
+Theorem C02_builder_bucket_keys_refuted :
+  (exists ms r, build ms = BOk r /\ abs r <> mkset (map abs ms)) /\
+  build [RTupG [([97; 44; 32; 98], rint 1)]; RTupG [([97], rint 1); ([98], rint 2)]] = BPanic.
+Proof. split; [exact bucket_string_refutes_members|exact bucket_names_panic]. Qed.
+Print Assumptions C02_builder_bucket_keys_refuted.
+
+(* non-vacuity: the hypotheses of the partial theorem hold on a concrete member list with a repeated member, and a mixed
+   member list (five buckets, a multi-valued key, a hole) is built to a UnionSet denoting exactly its members *)
+Example C02_builder_partial_applies :
+  abs (RGen [rint 1; rint 2]) = mkset (map abs [rint 1; rint 2; rint 1]).
+Proof.
+  apply (C02_builder_denotes_members_partial [rint 1; rint 2; rint 1]).
+  - vm_compute. reflexivity.
+  - vm_compute. constructor; [intros []|constructor].
+  - intros b vs s Hin Hf. vm_compute in Hin. destruct Hin as [Hin|[]]. inversion Hin; subst.
+    cbn [finish_bucket] in Hf. inversion Hf; subst. apply C02_generic_bucket_denotes_members.
+    + intros x y Hx Hy. cbn [In] in Hx, Hy.
+      destruct Hx as [<-|[<-|[<-|[]]]]; destruct Hy as [<-|[<-|[<-|[]]]]; vm_compute; intros H; try reflexivity; discriminate.
+    + intros x Hx. cbn [In] in Hx. destruct Hx as [<-|[<-|[<-|[]]]]; vm_compute; intros H; discriminate.
+Qed.
+
+Example C02_builder_probe :
+  let ms := [rint 1; RTupG []; RTupChar 0 97; RTupChar 2 99; RTupEntry (rint 1) (rint 2); RTupEntry (rint 1) (rint 3);
+             RTupItem 1 REmpty; RTupG [([97], rint 1)]; RTupG [([97], rint 2)]; rint 1] in
+  exists u, build ms = BOk (RUnion u) /\ length u = 5%nat /\ abs (RUnion u) = mkset (map abs ms).
+Proof. eexists. split; [vm_compute; reflexivity|]. split; vm_compute; reflexivity. Qed.
